@@ -526,4 +526,43 @@ theorem compiled_usableAddr_rejects_loopback_and_local :
     (∀ b ∈ SdnsVerif.Gen.C07.usable_local_probe, b = false) ∧
     SdnsVerif.Gen.C07.usable_public_probe = true := by decide
 
+/-- The response question sections the compiled `QuestionMatches` is evaluated
+on (request: `www.victim.test. A IN`): same, other case, other name, other
+type, other class, none, two, string-suffix look-alike. -/
+def questionProbe : List (List Question) :=
+  [[⟨"www.victim.test.".toList, 1, 1⟩], [⟨"WWW.Victim.TEST.".toList, 1, 1⟩],
+   [⟨"mail.victim.test.".toList, 1, 1⟩], [⟨"www.victim.test.".toList, 28, 1⟩],
+   [⟨"www.victim.test.".toList, 1, 3⟩], [],
+   [⟨"www.victim.test.".toList, 1, 1⟩, ⟨"www.victim.test.".toList, 1, 1⟩],
+   [⟨"xwww.victim.test.".toList, 1, 1⟩]]
+
+/-- `(referral, authZone, qname)` triples the compiled `progressingReferral` and
+`CompareSuffix(referral, authZone)` are evaluated on: proper, self, self in
+another case, upward, root, sideways, string-suffix look-alike, off path,
+referral = qname, escaped dot, from the root. -/
+def referralProbe : List (String × String × String) :=
+  [("sub.evil.test.", "evil.test.", "x.sub.evil.test."),
+   ("evil.test.", "evil.test.", "x.sub.evil.test."),
+   ("EVIL.Test.", "evil.test.", "x.sub.evil.test."),
+   ("test.", "evil.test.", "x.sub.evil.test."),
+   (".", "evil.test.", "x.sub.evil.test."),
+   ("victim.test.", "evil.test.", "x.sub.evil.test."),
+   ("notevil.test.", "evil.test.", "x.notevil.test."),
+   ("other.evil.test.", "evil.test.", "x.sub.evil.test."),
+   ("x.sub.evil.test.", "evil.test.", "x.sub.evil.test."),
+   ("x\\.evil.test.", "evil.test.", "y.x\\.evil.test."),
+   ("test.", ".", "www.victim.test.")]
+
+/-- On the probe tables the compiled functions and the model agree value for
+value (regenerated on every run: a change of the compiled comparison in either
+direction breaks this `decide`). -/
+theorem compiled_guards_agree_with_model_on_probes :
+    SdnsVerif.Gen.C07.question_match_probe =
+      questionProbe.map (questionMatches ⟨"www.victim.test.".toList, 1, 1⟩) ∧
+    SdnsVerif.Gen.C07.progressing_probe =
+      referralProbe.map (fun t => progressingReferral t.1.toList t.2.1.toList t.2.2.toList) ∧
+    SdnsVerif.Gen.C07.compare_suffix_probe =
+      referralProbe.map (fun t => compareSuffix (labelsOf t.1.toList) (labelsOf t.2.1.toList)) := by
+  decide
+
 end SdnsVerif.Props.C07
